@@ -169,7 +169,9 @@ type step struct {
 	Arg string `json:"arg,omitempty"`
 }
 
-var protectedOps = []string{"GET /accessories", "GET /characteristics", "PUT value", "PUT ev", "POST /pairings add", "POST /pairings remove", "POST /pairings add-accessory-name", "POST /resource"}
+var protectedOps = []string{"GET /accessories", "GET /characteristics", "PUT value", "PUT ev", "POST /pairings add", "POST /pairings remove", "POST /pairings add-accessory-name", "POST /resource",
+	// the same endpoints through methods their handlers do not expect: the refusal must come before any dispatch
+	"other-method POST /accessories", "other-method PUT /accessories", "other-method POST /characteristics", "other-method GET /pairings", "other-method PUT /pairings", "other-method GET /resource"}
 var handshakeOps = []string{"setup M1", "setup M3 wrong-proof", "setup M3 A=0", "setup M5 zero-key", "verify M1", "verify M1 short-key", "verify M3 unknown-name", "verify M3 accessory-name",
 	"verify M3 L-bad-signature", "verify M3 zero-key", "verify M3 short", "identify", "L read", "L write", "L subscribe", "switch-connection", "encrypted GET /accessories", "encrypted PUT value", "encrypted-zero GET /accessories", "encrypted-zero PUT value"}
 
@@ -205,6 +207,22 @@ func (w *world) request(op string, rnd *rand.Rand, at *attacker) (method, target
 	case "identify":
 		return "POST", "/identify", "", nil, false
 	}
+	if strings.HasPrefix(op, "other-method ") {
+		f := strings.Fields(op)
+		body := refctl.PutBody(refctl.CharValue{AID: aid, IID: onID, Value: refctl.RawJSON(true)})
+		ct := refctl.ContentJSON
+		if f[2] == "/pairings" {
+			body, ct = refctl.PairingsAdd(at.me.ID, at.me.LTPK, true), refctl.ContentTLV8
+		}
+		if f[1] == "GET" || f[1] == "HEAD" {
+			body = nil
+		}
+		target := f[2]
+		if target == "/characteristics" {
+			target += fmt.Sprintf("?id=%d.%d", aid, onID)
+		}
+		return f[1], target, ct, body, true
+	}
 	return "", "", "", nil, false
 }
 
@@ -232,7 +250,7 @@ func main() {
 	// all sequences of length <= 2
 	for _, x := range alph {
 		histories = append(histories, []step{{Op: x}})
-		for _, y := range protectedOps {
+		for _, y := range protectedOps[:8] {
 			histories = append(histories, []step{{Op: x}, {Op: y}})
 		}
 	}
